@@ -37,9 +37,27 @@ enum Call {
     FeedAlert,
     FeedEof,
     FeedCutEof(usize),
-    FeedErr,
+    FeedErr(std::io::ErrorKind),
+    FailKind(std::io::ErrorKind),
     Send(Vec<u8>),
     Pump,
+}
+
+fn err_kind(k: &str) -> std::io::ErrorKind {
+    use std::io::ErrorKind::*;
+    match k {
+        "reset" => ConnectionReset,
+        "aborted" => ConnectionAborted,
+        "pipe" => BrokenPipe,
+        "timedout" => TimedOut,
+        "intr" => Interrupted,
+        "wouldblock" => WouldBlock,
+        "eof" => UnexpectedEof,
+        "notconn" => NotConnected,
+        "invalid" => InvalidData,
+        "oom" => OutOfMemory,
+        _ => Other,
+    }
 }
 
 fn parse_call(tok: &str) -> Call {
@@ -63,7 +81,10 @@ fn parse_call(tok: &str) -> Call {
         ["F", "alert"] => Call::FeedAlert,
         ["F", "eof"] => Call::FeedEof,
         ["F", "cut", k] => Call::FeedCutEof(k.parse().unwrap()),
-        ["F", "err"] => Call::FeedErr,
+        ["F", "err"] => Call::FeedErr(std::io::ErrorKind::ConnectionReset),
+        ["F", "err", k] => Call::FeedErr(err_kind(k)),
+        // the kind of error the failing transport reports from now on (followed by FAIL); the call itself does nothing else
+        ["FAILK", k] => Call::FailKind(err_kind(k)),
         ["S", d] => Call::Send(unhex(d)),
         ["P"] => Call::Pump,
         _ => panic!("bad call {}", tok),
@@ -380,8 +401,13 @@ async fn run_case(start: bool, groups: Vec<Vec<Call>>, sched: Vec<usize>) -> Str
                             };
                         }
                         Call::Pump => break "nostream",
-                        Call::FeedErr => {
-                            let _ = ftx.send(REv::Err(std::io::ErrorKind::ConnectionReset, "injected read error"));
+                        Call::FeedErr(k) => {
+                            let _ = ftx.send(REv::Err(*k, "injected read error"));
+                            break "ok";
+                        }
+                        Call::FailKind(k) => {
+                            wh2.set_fail_kind(*k);
+                            wh2.set_fail_at(Some(wh2.total()));
                             break "ok";
                         }
                     }
